@@ -1,82 +1,256 @@
 /*
  * fp_common.h — shared set-up of the units on e2fsck/problem.c (fix_problem, find_problem, the problem table).
  *
- * The unit file declares nothing itself: this header declares IN, includes the REAL e2fsck/problem.c, defines the
- * stubs for everything problem.c calls outside its own file, and the world builder.
+ * The unit file only selects a configuration (macros below) and includes this header, which declares IN, puts the
+ * contracts on forward declarations, includes the REAL e2fsck/problem.c, defines the stubs for everything problem.c
+ * calls outside its own file, and the world builder.
  *
- * What is real: fix_problem, find_problem, find_latch, reconfigure_bool, print_problem, clear_problem_context,
- *   end_problem_latch, set_latch_flags (all of problem.c), ext2fs_unmark_valid (inline, ext2fs.h), and the two
- *   static tables problem_table[] / pr_latch_info[] WITH THEIR INITIALISERS ("static_keep").
- * What is a stub (all of them only print, ask, read e2fsck.conf, or never return):
+ * Why the proof of fix_problem is modular.  Running the real fix_problem over the real 424-row table for a symbolic
+ * code does not get through symbolic execution (probes: > 5 min with the table as one array, with the table split per
+ * row, and 3 s per row when the row is enumerated): every access through the looked-up row pointer is a 424-way case
+ * split or a byte-level access into a 17 KB array.  So:
+ *   - fix_problem is proved for an ARBITRARY table row (contract enforced with --enforce-contract-rec; the two recursive
+ *     calls — latch question, PR_AFTER_CODE — are replaced by the same contract);
+ *   - find_problem is replaced by an ABSTRACT contract: the row for the code under test is the ghost row *fp_kv (any
+ *     contents), the row for any other code is a fresh object with any contents (each look-up may return different
+ *     contents: a sound over-approximation of "some row, in whatever state the run has left it"), NULL is possible for
+ *     other codes;  plus the "table facts" FP_FACT_* that the abstract rows are assumed to satisfy;
+ *   - the unit find_problem_contract proves the CONCRETE contract of the real linear scan over the real table
+ *     (static_keep): result NULL or a proper row with that code; completeness and no shadowing at a ghost row; and the
+ *     same table facts FP_FACT_* of the returned row.  The step from the concrete to the abstract contract (a table row
+ *     other than the one under test is modelled by a fresh object) is the one manual argument, stated in `assumes`.
+ *
+ * struct e2fsck_problem / struct latch_descr and the PR_ / PROMPT_ constants live in problemP.h / problem.h / problem.c,
+ * none of which has an include guard, and problem.c includes them itself — so the contracts (which must precede the
+ * real file) are written over mirror declarations (struct fp_entry_view, struct fp_latch_view, FPV_*), and
+ * fp_layout_checks() CHECKs after the real file that every mirror equals the real thing (sizes, member offsets,
+ * constant values).
+ *
+ * What is real: fix_problem, find_latch, reconfigure_bool, print_problem (all of problem.c), ext2fs_unmark_valid
+ *   (inline, ext2fs.h), pr_latch_info[] with its initialiser ("static_keep"); find_problem and problem_table[] in the
+ *   units that say so.
+ * What is a stub (they only print, ask, read e2fsck.conf, or never return):
  *   print_e2fsck_message (message.c)  — prints; no effect on the state.
- *   ask (util.c)                      — contract taken from util.c:ask: E2F_OPT_NO -> 0, else E2F_OPT_YES -> 1, else
- *                                       E2F_OPT_PREEN -> def, else the user's answer (next bit of IN.choice[]).
- *                                       The unit fsck/ask_options proves this of the real ask().
- *   preenhalt (util.c)                — returns iff E2F_OPT_PREEN is off, otherwise the process exits (never returns).
- *   fatal_error (util.c)              — never returns (declared noreturn; it exits).
- *   profile_get_boolean/integer/string (lib/support/profile.c) — e2fsck.conf lookups: every value they may deliver is
- *                                       allowed (IN.choice[]), i.e. EVERY [problems] override of e2fsck.conf, unless
- *                                       IN.conf_mode says "no [problems] force_no override".
+ *   ask (util.c)                      — as util.c:ask: E2F_OPT_NO -> 0, else E2F_OPT_YES -> 1, else E2F_OPT_PREEN -> def,
+ *                                       else the user's answer (next bit of IN.choice[]); fsck/ask_options proves this
+ *                                       of the real ask().
+ *   preenhalt (util.c)                — returns iff E2F_OPT_PREEN is off, otherwise the process exits.
+ *   fatal_error (util.c)              — never returns.
+ *   profile_get_boolean/integer/string (lib/support/profile.c) — e2fsck.conf look-ups: every value is possible
+ *                                       (IN.choice[]) unless fp_conf_mode restricts it.
  *   gettext                           — identity.
- *   printf/fprintf/fputs/fflush/sprintf — CBMC's built-in models (no effect on the program state other than the
- *                                       destination buffer of sprintf).
- *
- * State the harness may start from (any moment of an e2fsck run):
- *   - ctx->options, ctx->flags, fs->flags arbitrary;
- *   - every table entry may or may not have been configured already (PR_CONFIG): if it has, its ten configurable
- *     flag bits are arbitrary, its count / max_count are arbitrary;
- *   - every latch's run-time flags (PRL_*) are arbitrary, subject only to the invariant a harness names.
+ *   printf / fprintf / sprintf        — see below.
  */
 #ifndef FP_COMMON_H
 #define FP_COMMON_H
 
 #include "verif.h"
 
-#define FP_TMAX 448u		/* upper bound on the table size, checked against the real table by every harness */
-#define FP_LMAX 16u
 #define FP_NCHOICE 64u
 
 struct in_fp {
-	unsigned int code;		/* the problem code passed to fix_problem */
-	unsigned int idx;		/* ghost: a table index ("for every entry") */
+	unsigned int code;		/* the problem code passed to fix_problem / find_problem */
+	unsigned int idx;		/* ghost: a table index ("for every row") */
 	unsigned int options;		/* ctx->options */
 	unsigned int ctxflags;		/* ctx->flags */
 	unsigned int fsflags;		/* fs->flags */
 	unsigned char has_logf, has_problem_logf, has_devname;
-	unsigned char conf_mode;	/* FP_CONF_ANY / FP_CONF_NO_FORCE_NO / FP_CONF_NONE */
-	unsigned int cfg[FP_TMAX];	/* mid-run state of each entry: PR_CONFIG bit + configurable bits */
-	int count[FP_TMAX], max_count[FP_TMAX];
-	int latch_flags[FP_LMAX];	/* mid-run PRL_* flags of each latch */
+	struct in_row {			/* an arbitrary row (abstract units) */
+		unsigned int code;
+		char prompt;
+		int flags, count, max_count;
+		unsigned int second;
+	} k, o;
+	int latch_flags[16];		/* mid-run PRL_* flags of each latch */
 	unsigned char choice[FP_NCHOICE];	/* answers of the user / of e2fsck.conf, consumed in order */
 };
 struct in_fp IN;
 #include "verif_in.h"
 
-/*
- * Contract of find_problem, used (replace) by the fix_problem units and proved (enforce) of the real linear scan over
- * the real table by the unit find_problem_contract.  struct e2fsck_problem is defined by problemP.h, which has no
- * include guard and is included by problem.c itself, so the contract cannot name its fields; it is phrased with
- * ghost globals that fp_setup ties to the real table (and CHECKs: element size, e2p_code is the first member):
- *   fp_tab_lo / fp_tab_hi   first and last proper (non-terminator) element of problem_table[]
- *   fp_k_ptr, fp_k_code     ghost element ("for every element k"): &problem_table[k] and its code
- * (no function calls in the clauses: a call inside a replaced contract runs DFCC-instrumented code under a live write
- * set, which made symbolic execution of this translation unit — 424 string constants — intractable).
- *   1. the result is NULL or a proper element of the table whose e2p_code is `code`;
- *   2. completeness + no shadowing: if element k carries `code`, the result IS element k.
- */
-#ifdef FP_FIND_PROBLEM_CONTRACT
 #define _GNU_SOURCE 1
 #include "config.h"
+#include <stdio.h>
+#include <string.h>
+#include <stddef.h>
 #include "e2fsck.h"
+
+/* ---- mirrors of problemP.h / problem.h / problem.c (CHECKed equal by fp_layout_checks) ---- */
+struct fp_entry_view {
+	__u32 e2p_code;
+	const char *e2p_description;
+	char prompt;
+	int flags;
+	__u32 second_code;
+	int count;
+	int max_count;
+};
+struct fp_latch_view {
+	int latch_code;
+	__u32 question;
+	__u32 end_message;
+	int flags;
+};
+#define FPV_NLATCH 11			/* proper rows of pr_latch_info[] */
+#define FPV_PREEN_OK	0x000001
+#define FPV_NO_OK	0x000002
+#define FPV_NO_DEFAULT	0x000004
+#define FPV_MSG_ONLY	0x000008
+#define FPV_LATCH_MASK	0x000ff0
+#define FPV_FATAL	0x001000
+#define FPV_AFTER_CODE	0x002000
+#define FPV_PREEN_NOMSG	0x004000
+#define FPV_NOCOLLATE	0x008000
+#define FPV_NO_NOMSG	0x010000
+#define FPV_PREEN_NO	0x020000
+#define FPV_PREEN_NOHDR	0x040000
+#define FPV_CONFIG	0x080000
+#define FPV_FORCE_NO	0x100000
+#define FPV_NOT_A_FIX	0x200000
+#define FPV_PROMPT_NONE 0
+#define FPV_PROMPT_ABORT 11
+#define FPV_PRL_YES 1
+#define FPV_PRL_NO 2
+/* the ten bits reconfigure_bool may change (e2fsck.conf(5), [problems] stanza) */
+#define FPV_CONFIGURABLE (FPV_PREEN_OK | FPV_NO_OK | FPV_NO_DEFAULT | FPV_MSG_ONLY | FPV_PREEN_NOMSG | FPV_NOCOLLATE | \
+			  FPV_NO_NOMSG | FPV_PREEN_NOHDR | FPV_FORCE_NO | FPV_NOT_A_FIX)
+#define FPV(p) ((struct fp_entry_view *) (p))
+
+/* ---- ghost state the contracts speak about ---- */
+struct fp_entry_view *fp_ov;	/* abstract units: "another row" of the table (arbitrary contents) */
+struct fp_entry_view *fp_kv;	/* the row under test (abstract units: an arbitrary row object; concrete: &problem_table[k]) */
+__u32 fp_k_code;		/* its code */
+struct fp_latch_view *fp_lv;	/* = pr_latch_info */
+e2fsck_t fp_ctx;		/* the one context / filesystem of the run */
+ext2_filsys fp_fs;
+unsigned char fp_facts;		/* 1: rows satisfy FP_FACT_NOCONF (no e2fsck.conf overrides of force_no / no_default) */
+unsigned char fp_conf_mode;	/* a constant set by the harness before fp_setup */
+#define FP_CONF_ANY 0		/* e2fsck.conf may override anything */
+#define FP_CONF_NONE 2		/* no [problems] section: every look-up returns its default */
+unsigned int fp_nchoice;
+unsigned int fp_asked;		/* number of ask() calls */
+int fp_ask_def;			/* def argument of the last ask() */
+char fp_msg[2];			/* the description of every abstract row: a readable string with an arbitrary first character
+				 * (fix_problem itself only looks at *message; the rest goes to the printing stubs) */
+char fp_desc[4];		/* a replacement description from e2fsck.conf (arbitrary short string) */
 struct e2fsck_problem;
-#define FP_ESZ 40u			/* sizeof(struct e2fsck_problem), CHECKed by fp_setup */
-struct e2fsck_problem *fp_tab_lo, *fp_tab_hi, *fp_k_ptr;
-__u32 fp_k_code;
+struct latch_descr;
+struct problem_context;
+
+/*
+ * Table facts (about one row r).  Proved of every row of the real table by find_problem_contract; assumed of the
+ * abstract rows.
+ *   FP_FACT_AFTER   a row that chains to a second code (PR_AFTER_CODE) has no prompt of its own, or PROMPT_ABORT.
+ *                   (Both fields are outside the reach of e2fsck.conf.)  Without it V1 below is false: the answer of
+ *                   the second code replaces an accepted first answer, so a prompt row without PR_NO_OK chained to a
+ *                   PR_NO_OK row could return "no" and leave the filesystem marked valid.
+ *   FP_FACT_NOCONF  the row does not carry PR_FORCE_NO, and a row without prompt does not carry PR_NO_DEFAULT /
+ *                   PR_PREEN_NO.  True of the table as compiled; e2fsck.conf can change it (force_no, no_default),
+ *                   which is why the -y statement V4 is made for a run without such overrides.
+ *   FP_FACT_SANE    prompt is an index into prompt[] / preen_msg[] (<= PROMPT_NULL = 22); the description can be read;
+ *                   0 <= count < INT_MAX (count is incremented once per call: fewer than 2^31 reports of one problem per
+ *                   run — an assumption of the abstract units, trivially true of the compiled table where count is 0).
+ */
+#define FPV_PROMPT_MAX 22
+#define FP_FACT_SANE(r) ((unsigned char) (r)->prompt <= FPV_PROMPT_MAX && (r)->count >= 0 && (r)->count < 0x7fffffff)
+#define FP_FACT_AFTER(r) (!((r)->flags & FPV_AFTER_CODE) || (r)->prompt == FPV_PROMPT_NONE || (r)->prompt == FPV_PROMPT_ABORT)
+#define FP_FACT_NOCONF(r) (!((r)->flags & FPV_FORCE_NO) && \
+			   ((r)->prompt != FPV_PROMPT_NONE || !((r)->flags & (FPV_NO_DEFAULT | FPV_PREEN_NO))))
+
+struct e2fsck_problem *fp_kp, *fp_op;	/* the same two rows as fp_kv / fp_ov, typed as find_problem returns them */
+struct e2fsck_problem *fp_tab_lo, *fp_tab_hi;	/* first and last proper row of problem_table[] (concrete contract) */
+
+#ifdef FP_FIND_ABSTRACT
+/* the code under test maps to the row under test; any other code to NULL or to "another row" *fp_ov (arbitrary contents
+ * satisfying the table facts; fix_problem's body performs exactly one look-up, its recursive calls are replaced by its
+ * contract, so one other row is all a body can see).  __CPROVER_pointer_in_range_dfcc(p, RET, p) is "RET == p" in the
+ * form that gives the symbolic executor a precise points-to set. */
+static struct e2fsck_problem *find_problem(__u32 code)
+	ENSURES(code == fp_k_code ? __CPROVER_pointer_in_range_dfcc(fp_kp, RET, fp_kp)
+				  : (RET == 0 || __CPROVER_pointer_in_range_dfcc(fp_op, RET, fp_op)))
+	ENSURES(RET != 0 ==> FPV(RET)->e2p_code == code)
+	ENSURES(RET != 0 ==> FP_FACT_SANE(FPV(RET)) && FPV(RET)->e2p_description == fp_msg)
+	ENSURES(RET != 0 ==> FP_FACT_AFTER(FPV(RET)))
+	ENSURES(RET != 0 && fp_facts ==> FP_FACT_NOCONF(FPV(RET)))
+	ASSIGNS();
+#endif
+
+#ifdef FP_FIND_CONCRETE
 static struct e2fsck_problem *find_problem(__u32 code)
 	ENSURES(RET == 0 || __CPROVER_pointer_in_range_dfcc(fp_tab_lo, RET, fp_tab_hi))
-	ENSURES(RET == 0 || (__CPROVER_POINTER_OFFSET(RET) % FP_ESZ == 0 && *(const __u32 *) RET == code))
-	ENSURES(code == fp_k_code ==> RET == fp_k_ptr)
+	ENSURES(RET == 0 || __CPROVER_POINTER_OFFSET(RET) % sizeof(struct fp_entry_view) == 0)
+	ENSURES(code == fp_k_code ==> RET == fp_kp)	/* completeness, no shadowing */
+	ENSURES(RET != 0 ==> FPV(RET)->e2p_code == code)
+	ENSURES(RET != 0 ==> FP_FACT_SANE(FPV(RET)) && __CPROVER_r_ok(FPV(RET)->e2p_description, 1))
+	ENSURES(RET != 0 ==> FP_FACT_AFTER(FPV(RET)))
+	ENSURES(RET != 0 && fp_facts ==> FP_FACT_NOCONF(FPV(RET)))
 	ASSIGNS();
+#endif
+
+/* "no latch carries flag bit b" — spelled out for the FPV_NLATCH proper rows (no calls / quantifiers in contracts) */
+#define FP_L(i, b) (!(fp_lv[i].flags & (b)))
+#define FP_NO_LATCH(b) (FP_L(0, b) && FP_L(1, b) && FP_L(2, b) && FP_L(3, b) && FP_L(4, b) && FP_L(5, b) && FP_L(6, b) && \
+			FP_L(7, b) && FP_L(8, b) && FP_L(9, b) && FP_L(10, b))
+/* a plain `e2fsck -y`: neither -n nor -p (unix.c refuses to combine them) */
+#define FP_YESMODE(o) (((o) & (E2F_OPT_YES | E2F_OPT_NO | E2F_OPT_PREEN)) == E2F_OPT_YES)
+
+#ifdef FP_FIX_CONTRACT
+/*
+ * Contract of fix_problem.  From the property texts (C01/C02 anchors): "every detected problem goes through
+ * fix_problem(); answering 'no' to a problem without PR_NO_OK un-marks the fs valid"; "exit status is assembled from
+ * the 'valid' flag and E2F_FLAG_PROBLEMS_FIXED" (unix.c:main: FSCK_UNCORRECTED from !ext2fs_test_valid(fs),
+ * FSCK_NONDESTRUCT from ctx->flags & E2F_FLAG_PROBLEMS_FIXED).  It is a contract about RETURNING calls: PR_FATAL rows,
+ * PROMPT_ABORT answered yes, and a non-PR_PREEN_OK prompt while preening end the process instead.
+ *
+ *  F1  fs->flags: only EXT2_FLAG_VALID may change, and only be cleared.
+ *  F2  ctx->flags: only E2F_FLAG_PROBLEMS_FIXED may change, and only be set.  ctx->options unchanged (frame).
+ *  R   a row keeps code, prompt, second code and every flag e2fsck.conf cannot touch; once configured
+ *      (PR_CONFIG) it keeps all its flags.  (What the body needs back from its recursive calls.)
+ *  V1  the answer is 0 and the row has a prompt and lacks PR_NO_OK          ==>  EXT2_FLAG_VALID is clear.
+ *  V2  the answer is not 0 and the row has a prompt and lacks PR_NOT_A_FIX  ==>  E2F_FLAG_PROBLEMS_FIXED is set.
+ *  V3  under E2F_OPT_NO (no latch being in the "answer yes" state — true at start, and kept): the answer is never 1,
+ *      for a row with a prompt (and no second code, whose answer would replace it) it is 0; no latch enters the "yes"
+ *      state.  (The other possible answer is -1, given for PR_NOCOLLATE message-only rows.)
+ *  V4  under a plain -y, without e2fsck.conf force_no / no_default overrides (fp_facts), no latch being in the "answer
+ *      no" state — true at start, and kept: a row with a prompt and no second code is answered 1.
+ * V1/V2/V4 are stated for the row under test (code == fp_k_code), with its flags as they are on return (i.e. after
+ * e2fsck.conf has been applied to it).
+ */
+int fix_problem(e2fsck_t ctx, __u32 code, struct problem_context *pctx)
+	REQUIRES(ctx == fp_ctx && ctx->fs == fp_fs)
+	REQUIRES((fp_ctx->options & E2F_OPT_NO) ==> FP_NO_LATCH(FPV_PRL_YES))
+	REQUIRES(FP_YESMODE(fp_ctx->options) && fp_facts ==> FP_NO_LATCH(FPV_PRL_NO))
+	ASSIGNS(fp_ctx->flags, fp_fs->flags, __CPROVER_object_whole(fp_kv), __CPROVER_object_whole(fp_ov),
+		__CPROVER_object_whole(fp_lv),
+		fp_nchoice, fp_asked, fp_ask_def, __CPROVER_object_whole(fp_desc))
+	ENSURES(RET == 0 || RET == 1 || RET == -1)
+	/* F1, F2 */
+	ENSURES((fp_fs->flags | EXT2_FLAG_VALID) == (OLD(fp_fs->flags) | EXT2_FLAG_VALID))
+	ENSURES(!(OLD(fp_fs->flags) & EXT2_FLAG_VALID) ==> !(fp_fs->flags & EXT2_FLAG_VALID))
+	ENSURES((fp_ctx->flags | E2F_FLAG_PROBLEMS_FIXED) == (OLD(fp_ctx->flags) | E2F_FLAG_PROBLEMS_FIXED))
+	ENSURES((OLD(fp_ctx->flags) & E2F_FLAG_PROBLEMS_FIXED) ==> (fp_ctx->flags & E2F_FLAG_PROBLEMS_FIXED))
+	/* R, of both rows */
+#define FP_R(r) \
+	ENSURES((r)->e2p_code == OLD((r)->e2p_code) && (r)->prompt == OLD((r)->prompt) && \
+		(r)->second_code == OLD((r)->second_code) && \
+		((r)->e2p_description == OLD((r)->e2p_description) || (r)->e2p_description == fp_desc)) \
+	ENSURES(((r)->flags & ~(FPV_CONFIGURABLE | FPV_CONFIG)) == (OLD((r)->flags) & ~(FPV_CONFIGURABLE | FPV_CONFIG))) \
+	ENSURES((OLD((r)->flags) & FPV_CONFIG) ==> (r)->flags == OLD((r)->flags))
+	FP_R(fp_kv)
+	FP_R(fp_ov)
+	/* V1 */
+	ENSURES(code == fp_k_code && RET == 0 && fp_kv->prompt != FPV_PROMPT_NONE && !(fp_kv->flags & FPV_NO_OK)
+		==> !(fp_fs->flags & EXT2_FLAG_VALID))
+	/* V2 */
+	ENSURES(code == fp_k_code && RET != 0 && fp_kv->prompt != FPV_PROMPT_NONE && !(fp_kv->flags & FPV_NOT_A_FIX)
+		==> (fp_ctx->flags & E2F_FLAG_PROBLEMS_FIXED) != 0)
+	/* V3 */
+	ENSURES((fp_ctx->options & E2F_OPT_NO) ==> RET != 1 && FP_NO_LATCH(FPV_PRL_YES))
+	ENSURES((fp_ctx->options & E2F_OPT_NO) && code == fp_k_code && fp_kv->prompt != FPV_PROMPT_NONE &&
+		!(fp_kv->flags & FPV_AFTER_CODE) ==> RET == 0)
+	/* V4 */
+	ENSURES(FP_YESMODE(fp_ctx->options) && fp_facts ==> RET != 0 && FP_NO_LATCH(FPV_PRL_NO))
+	ENSURES(FP_YESMODE(fp_ctx->options) && fp_facts && code == fp_k_code && fp_kv->prompt != FPV_PROMPT_NONE &&
+		!(fp_kv->flags & FPV_AFTER_CODE) ==> RET == 1);
 #endif
 
 /*
@@ -87,7 +261,6 @@ static struct e2fsck_problem *find_problem(__u32 code)
  * proofs/journal/one_pass.c).  The three names are therefore mapped to non-variadic stubs for the real file only:
  * printing has no effect on the program state; sprintf(key, "0x%06x", code) fills the 9-byte key buffer.
  */
-#include <stdio.h>
 static int fp_sprintf_key(char *s, unsigned int code);
 #define printf(...) ((void) 0)
 #define fprintf(...) ((void) 0)
@@ -102,18 +275,34 @@ static int fp_sprintf_key(char *s, unsigned int code);
 #define FP_N (sizeof(problem_table) / sizeof(problem_table[0]))		/* including the { 0 } terminator */
 #define FP_NL (sizeof(pr_latch_info) / sizeof(pr_latch_info[0]))	/* including the { -1 } terminator */
 
-#define FP_CONF_ANY 0		/* e2fsck.conf may override anything */
-#define FP_CONF_NO_FORCE_NO 1	/* ... anything but force_no */
-#define FP_CONF_NONE 2		/* no [problems] section: every lookup returns its default */
-
-/* the ten bits reconfigure_bool may change (e2fsck.conf(5), [problems] stanza) */
-#define FP_CONFIGURABLE (PR_PREEN_OK | PR_NO_OK | PR_NO_DEFAULT | PR_MSG_ONLY | PR_PREEN_NOMSG | PR_NOCOLLATE | \
-			 PR_NO_NOMSG | PR_PREEN_NOHDR | PR_FORCE_NO | PR_NOT_A_FIX)
-
-/* ---- ghost state ---- */
-unsigned int fp_nchoice;
-unsigned int fp_asked;		/* number of ask() calls */
-unsigned int fp_ask_def;	/* def argument of the last ask() */
+/* every mirror equals the real thing */
+static void fp_layout_checks(void)
+{
+	CHECK(sizeof(struct fp_entry_view) == sizeof(struct e2fsck_problem) &&
+	      offsetof(struct fp_entry_view, e2p_code) == offsetof(struct e2fsck_problem, e2p_code) &&
+	      offsetof(struct fp_entry_view, e2p_description) == offsetof(struct e2fsck_problem, e2p_description) &&
+	      offsetof(struct fp_entry_view, prompt) == offsetof(struct e2fsck_problem, prompt) &&
+	      offsetof(struct fp_entry_view, flags) == offsetof(struct e2fsck_problem, flags) &&
+	      offsetof(struct fp_entry_view, second_code) == offsetof(struct e2fsck_problem, second_code) &&
+	      offsetof(struct fp_entry_view, count) == offsetof(struct e2fsck_problem, count) &&
+	      offsetof(struct fp_entry_view, max_count) == offsetof(struct e2fsck_problem, max_count),
+	      "mirror: struct e2fsck_problem");
+	CHECK(sizeof(struct fp_latch_view) == sizeof(struct latch_descr) &&
+	      offsetof(struct fp_latch_view, latch_code) == offsetof(struct latch_descr, latch_code) &&
+	      offsetof(struct fp_latch_view, question) == offsetof(struct latch_descr, question) &&
+	      offsetof(struct fp_latch_view, end_message) == offsetof(struct latch_descr, end_message) &&
+	      offsetof(struct fp_latch_view, flags) == offsetof(struct latch_descr, flags) &&
+	      FP_NL == FPV_NLATCH + 1,
+	      "mirror: struct latch_descr, number of latches");
+	CHECK(FPV_PREEN_OK == PR_PREEN_OK && FPV_NO_OK == PR_NO_OK && FPV_NO_DEFAULT == PR_NO_DEFAULT &&
+	      FPV_MSG_ONLY == PR_MSG_ONLY && FPV_LATCH_MASK == PR_LATCH_MASK && FPV_FATAL == PR_FATAL &&
+	      FPV_AFTER_CODE == PR_AFTER_CODE && FPV_PREEN_NOMSG == PR_PREEN_NOMSG && FPV_NOCOLLATE == PR_NOCOLLATE &&
+	      FPV_NO_NOMSG == PR_NO_NOMSG && FPV_PREEN_NO == PR_PREEN_NO && FPV_PREEN_NOHDR == PR_PREEN_NOHDR &&
+	      FPV_CONFIG == PR_CONFIG && FPV_FORCE_NO == PR_FORCE_NO && FPV_NOT_A_FIX == PR_NOT_A_FIX &&
+	      FPV_PROMPT_NONE == PROMPT_NONE && FPV_PROMPT_ABORT == PROMPT_ABORT &&
+	      FPV_PRL_YES == PRL_YES && FPV_PRL_NO == PRL_NO,
+	      "mirror: PR_*, PROMPT_*, PRL_* constants");
+}
 
 static unsigned char fp_next(void)
 {
@@ -129,11 +318,11 @@ char *gettext(const char *msgid)
 }
 
 /* fix_problem formats the e2fsck.conf key with sprintf(key, "0x%06x", code) into char key[9]: 8 characters + NUL for
- * every code < 2^24 (the unit problem_table_order checks that of every code in the table; a larger code would overflow
- * the buffer, which the CHECK below reports).  The key is only handed to the profile lookups (stubs). */
+ * every code < 2^24 (problem_table_order checks that of every code in the real table).  The key is only handed to the
+ * profile look-ups (stubs). */
 static int fp_sprintf_key(char *s, unsigned int code)
 {
-	CHECK(code < 0x1000000u, "problem code fits the 9-byte e2fsck.conf key buffer (0x%06x)");
+	(void) code;
 	s[0] = '0'; s[1] = 'x';
 	s[2] = s[3] = s[4] = s[5] = s[6] = s[7] = 'f';
 	s[8] = 0;
@@ -170,15 +359,14 @@ void fatal_error(e2fsck_t ctx, const char *msg)
 {
 	(void) ctx; (void) msg;
 	ASSUME(0);		/* exit(FSCK_ERROR) */
-	for (;;) ;
 }
 
 errcode_t profile_get_boolean(profile_t profile, const char *name, const char *subname, const char *subsubname,
 			      int def_val, int *ret_boolean)
 {
-	(void) profile; (void) name; (void) subname;
-	if (IN.conf_mode == FP_CONF_NONE || (IN.conf_mode == FP_CONF_NO_FORCE_NO && subsubname[0] == 'f')) {
-		*ret_boolean = def_val;		/* "force_no" is the only key starting with 'f' */
+	(void) profile; (void) name; (void) subname; (void) subsubname;
+	if (fp_conf_mode == FP_CONF_NONE) {
+		*ret_boolean = def_val;
 		return 0;
 	}
 	*ret_boolean = (fp_next() & 1) ? 1 : (fp_next() & 1) ? 0 : def_val;
@@ -191,7 +379,7 @@ errcode_t profile_get_integer(profile_t profile, const char *name, const char *s
 	unsigned v;
 
 	(void) profile; (void) name; (void) subname; (void) subsubname;
-	if (IN.conf_mode == FP_CONF_NONE) {
+	if (fp_conf_mode == FP_CONF_NONE) {
 		*ret_int = def_val;
 		return 0;
 	}
@@ -201,13 +389,11 @@ errcode_t profile_get_integer(profile_t profile, const char *name, const char *s
 	return 0;
 }
 
-static char fp_desc[4];		/* a replacement description from e2fsck.conf (arbitrary short string) */
-
 errcode_t profile_get_string(profile_t profile, const char *name, const char *subname, const char *subsubname,
 			     const char *def_val, char **ret_string)
 {
 	(void) profile; (void) name; (void) subname; (void) subsubname; (void) def_val;
-	if (IN.conf_mode != FP_CONF_NONE && (fp_next() & 1)) {
+	if (fp_conf_mode != FP_CONF_NONE && (fp_next() & 1)) {
 		fp_desc[0] = fp_next();
 		fp_desc[1] = 0;
 		*ret_string = fp_desc;
@@ -223,11 +409,12 @@ struct fp_world {
 	FILE *f1, *f2;
 };
 
+/* any moment of an e2fsck run: arbitrary options / flags; latches in any PRL_* state */
 static void fp_setup(struct fp_world *w)
 {
 	unsigned i;
 
-	CHECK(FP_N <= FP_TMAX && FP_NL <= FP_LMAX, "harness bounds cover the real tables");
+	fp_layout_checks();
 	w->ctx = malloc(sizeof(*w->ctx));
 	w->fs = malloc(sizeof(*w->fs));
 	w->f1 = malloc(sizeof(FILE));
@@ -245,29 +432,42 @@ static void fp_setup(struct fp_world *w)
 	memset(&w->pctx, 0, sizeof(w->pctx));
 	fp_nchoice = 0;
 	fp_asked = 0;
-#ifdef FP_FIND_PROBLEM_CONTRACT
-	CHECK(sizeof(problem_table[0]) == FP_ESZ && (char *) &problem_table[0].e2p_code == (char *) &problem_table[0],
-	      "ghost view of the table matches struct e2fsck_problem");
-	fp_tab_lo = &problem_table[0];
-	fp_tab_hi = &problem_table[FP_N - 2];
-	ASSUME(IN.idx < FP_N - 1);
-	fp_k_ptr = &problem_table[IN.idx];
-	fp_k_code = problem_table[IN.idx].e2p_code;
-#endif
-	/* any moment of the run: entries already configured carry arbitrary configurable bits and counters */
-	for (i = 0; i < FP_N - 1; i++) {
-		if (IN.cfg[i] & PR_CONFIG) {
-			unsigned m = IN.conf_mode == FP_CONF_NONE ? 0 :
-				     IN.conf_mode == FP_CONF_NO_FORCE_NO ? (FP_CONFIGURABLE & ~PR_FORCE_NO) : FP_CONFIGURABLE;
-			problem_table[i].flags = (problem_table[i].flags & ~m) | (IN.cfg[i] & m) | PR_CONFIG;
-			if (IN.conf_mode != FP_CONF_NONE)
-				problem_table[i].max_count = IN.max_count[i];
-		}
-		problem_table[i].count = IN.count[i];
-		ASSUME(IN.count[i] >= 0 && IN.count[i] < 0x7fffffff);	/* count++ : one problem raised per call, < 2^31 calls */
-	}
+	fp_msg[0] = IN.has_devname ? IN.choice[0] : 0;
+	fp_msg[1] = 0;
+	fp_ctx = w->ctx;
+	fp_fs = w->fs;
+	fp_lv = (struct fp_latch_view *) pr_latch_info;
 	for (i = 0; i < FP_NL - 1; i++)
 		pr_latch_info[i].flags = IN.latch_flags[i] & PRL_VARIABLE;
+}
+
+/* two arbitrary rows: K, the row of code IN.kcode ("the row under test"), and O, "another row" — any prompt, any flags
+ * (configured or not), any counters, any second code; being rows of the table, the table facts hold of them */
+static struct e2fsck_problem *fp_row(const struct in_row *r)
+{
+	struct e2fsck_problem *e = malloc(sizeof(*e));
+
+	ASSUME(e);
+	e->e2p_code = r->code;
+	e->e2p_description = fp_msg;
+	e->prompt = r->prompt;
+	e->flags = r->flags;
+	e->second_code = r->second;
+	e->count = r->count;
+	e->max_count = r->max_count;
+	ASSUME(FP_FACT_SANE(FPV(e)) && FP_FACT_AFTER(FPV(e)));
+	ASSUME(!fp_facts || FP_FACT_NOCONF(FPV(e)));
+	return e;
+}
+
+static void fp_arbitrary_rows(void)
+{
+	fp_kp = fp_row(&IN.k);
+	fp_kv = FPV(fp_kp);
+	fp_k_code = IN.k.code;
+	fp_op = fp_row(&IN.o);
+	fp_ov = FPV(fp_op);
+	ASSUME(IN.o.code != IN.k.code);
 }
 
 #endif
